@@ -694,6 +694,12 @@ CORRESPONDENCE_ONLY = [
     "`mda` line against the pointer-arithmetic oracle (folded into the misc= flag), not modelled",
     "the forwards of the six observers by mdspan and mdarray (one-line members): compared with the mapping's own answers on "
     "every map line (last bit of obs=); the theorems are about the mapping's observers",
+    "mdspan constructors other than (pointer, mapping): (pointer, exts...) / (pointer, span) / (pointer, array) with rank() and "
+    "rank_dynamic() values, (pointer, extents), (pointer, mapping, accessor), the converting constructor (const element type, "
+    "dextents and back) and the default constructor are exercised on every layout_left / layout_right map line (same "
+    "data_handle, mapping and extents as the (pointer, mapping) object; folded into md=); they compose the extents "
+    "constructors and the mapping constructor, which have theorems (extents_ctor_eq, conv_extent_eq, "
+    "ctor_mapping_closed_form), and have no model function of their own",
 ]
 
 if __name__ == "__main__":
